@@ -451,6 +451,12 @@ func stripStmt(s minijs.Stmt) minijs.Stmt {
 		return minijs.SDoWhile{E: t.E, Body: stripList(t.Body)}
 	case minijs.SFor:
 		return minijs.SFor{Init: t.Init, Test: t.Test, Upd: t.Upd, Body: stripList(t.Body)}
+	case minijs.SSwitch:
+		out := minijs.SSwitch{E: t.E}
+		for _, c := range t.Cases {
+			out.Cases = append(out.Cases, minijs.Clause{Test: c.Test, Body: stripList(c.Body)})
+		}
+		return out
 	case minijs.SLabelled:
 		return minijs.SLabelled{L: t.L, S: stripStmt(t.S)}
 	case minijs.STry:
